@@ -19,8 +19,14 @@ def prep(chk, pid):
         chk.finish()
     return broken
 
-def run_cases(chk, cases, shards=14, henv=None):
-    """cases: list of dict(line=..., meta...). Adds 'iobs','mobs' to each. Reports lost lines."""
+def run_cases(chk, cases, shards=14, henv=None, logged=False):
+    """cases: list of dict(line=..., meta...). Adds 'iobs','mobs' to each. Reports lost lines.
+    logged: every case is run a second time by a server process whose application installed a debug-level logger (code that runs
+    only when logging is enabled must not change what a client sees); the copies are returned after the originals"""
+    if logged:
+        import copy, os
+        twins = [dict(copy.copy(c), desc=str(c.get("desc", "")) + " [debug logging on]", logged=True) for c in cases]
+        return run_cases(chk, cases, shards, henv) + run_cases(chk, twins, shards, dict(henv or os.environ, VERIF_LOG="debug"))
     lines = [c["line"] for c in cases]
     impl, model, failures = vlib.run_pair("conn", [], lines, shards=shards, timeout=900, henv=henv)
     for which, lo, hi, rc, tail in failures:
@@ -159,8 +165,17 @@ def run_c03(tier, seed):
             quit_at = rng.randrange(k)
             reqs[quit_at] = (G.casing(rng, "QUIT"), [])
         cases.append(dict(reqs=reqs, line=None, chunk=rng.choice(["whole", "1byte", "kway", "kway", "pipeline"]), quit_at=quit_at))
-    for c in cases:
+    for ci_, c in enumerate(cases):
         steps = []
+        # every fourth case on a password-protected server: requests before the connection's AUTH (if it sends one) are refused,
+        # and are answered all the same - one reply each
+        pw = None
+        if ci_ % 4 == 3 and c["quit_at"] is None:
+            pw = b"secret"
+            if ci_ % 3:
+                c["reqs"] = list(c["reqs"])
+                c["reqs"].insert(rng.randrange(len(c["reqs"]) + 1), ("AUTH", [rng.choice([pw, pw, b"wrong"])]))
+        c["pw"] = pw
         noerr = has_mapcmd(c["reqs"])
         tbl = rand_table(rng, noerr=noerr)
         if c["chunk"] == "pipeline":
@@ -170,12 +185,12 @@ def run_c03(tier, seed):
             for nm, a in c["reqs"]:
                 steps += chunk_ops(rng, G.request_bytes(nm, a), c["chunk"])
         steps.append((0, "e"))
-        c["line"] = L.mkcase(steps, tbl=tbl, default=rng.choice(HRES_NOERR if noerr else HRES_POOL[:-1]))
-        c["desc"] = " ; ".join(req_desc(nm, a) for nm, a in c["reqs"])[:300]
+        c["line"] = L.mkcase(steps, pw=c["pw"], tbl=tbl, default=rng.choice(HRES_NOERR if noerr else HRES_POOL[:-1]))
+        c["desc"] = ("[requirepass] " if c["pw"] else "") + " ; ".join(req_desc(nm, a) for nm, a in c["reqs"])[:300]
         for nm, _ in c["reqs"]:
             u = nm.upper() if isinstance(nm, str) else "?"
             cmds[u] = cmds.get(u, 0) + 1
-    good = run_cases(chk, cases)
+    good = run_cases(chk, cases, logged=True)
     validated, distinct = 0, set()
     for c in good:
         if not basic_monitors(chk, "C03", c):
@@ -385,7 +400,7 @@ def run_c04(tier, seed):
         dflt = c["default"] if not (noerr and c["default"][0] not in "mn") else "ms(4f4b)"
         c["line"] = L.mkcase(c.get("steps") or [(0, "f" + L.hx(data)), (0, "e")], tbl=rand_table(rng, noerr=noerr) if c["desc"] is None else None, default=dflt)
         c["desc"] = c["desc"] or repr(data[:200])
-    good = run_cases(chk, cases)
+    good = run_cases(chk, cases, logged=True)
     validated, distinct, kinds = 0, set(), {}
     for c in good:
         if not basic_monitors(chk, "C04", c):
@@ -535,7 +550,35 @@ def run_c05(tier, seed):
                           dict(case=c["line"], desc=c["desc"], got=calls, expected=want))
         else:
             corr(chk, c)
-    good = run_cases(chk, cases)
+    # sibling commands that share argument code (REV / non-REV, BYSCORE / by index): what the handler receives - which bound is the
+    # minimum, which is exclusive, the LIMIT window - compared call by call with the model's executor
+    sib = []
+    bounds = [(b"1", b"3"), (b"(1", b"3"), (b"1", b"(3"), (b"(1", b"(3"), (b"-inf", b"+inf"), (b"(-inf", b"+inf"), (b"-inf", b"(+inf"), (b"2", b"2"), (b"(2", b"2"), (b"3", b"1"), (b"(3", b"1")]
+    tails = [[], [b"WITHSCORES"], [b"LIMIT", b"0", b"1"], [b"LIMIT", b"1", b"2", b"WITHSCORES"], [b"withscores", b"limit", b"1", b"-1"]]
+    for lo, hi in bounds:
+        for tail in tails:
+            sib.append(("ZRANGEBYSCORE", [b"z", lo, hi] + tail))
+            sib.append(("ZREVRANGEBYSCORE", [b"z", hi, lo] + tail))
+            sib.append(("ZREVRANGEBYSCORE", [b"z", lo, hi] + tail))
+            if not any(t.upper() == b"WITHSCORES" for t in tail) or True:
+                sib.append(("ZRANGE", [b"z", lo, hi, b"BYSCORE"] + tail))
+                sib.append(("ZRANGE", [b"z", hi, lo, b"BYSCORE", b"REV"] + tail))
+    for st, en in [(b"0", b"-1"), (b"1", b"2"), (b"-2", b"-1"), (b"0", b"0"), (b"5", b"1")]:
+        for tail in ([], [b"WITHSCORES"]):
+            sib += [("ZRANGE", [b"z", st, en] + tail), ("ZREVRANGE", [b"z", st, en] + tail), ("ZRANGE", [b"z", st, en, b"REV"] + tail)]
+    for nm_, args_ in [("LPUSH", [b"l", b"a", b"b"]), ("RPUSH", [b"l", b"a", b"b"]), ("LPUSHX", [b"l", b"a"]), ("RPUSHX", [b"l", b"a"]), ("LPOP", [b"l"]), ("RPOP", [b"l"]), ("LPOP", [b"l", b"2"]), ("RPOP", [b"l", b"2"]),
+                       ("SETNX", [b"k", b"v"]), ("SET", [b"k", b"v", b"NX"]), ("SET", [b"k", b"v", b"XX", b"GET"]), ("GETSET", [b"k", b"v"]), ("HSETNX", [b"h", b"f", b"v"]), ("HSET", [b"h", b"f", b"v"]),
+                       ("INCRBY", [b"n", b"5"]), ("DECRBY", [b"n", b"5"]), ("INCR", [b"n"]), ("DECR", [b"n"]), ("EXPIRE", [b"k", b"100", b"NX"]), ("EXPIRE", [b"k", b"100", b"GT"])]:
+        sib.append((nm_, args_))
+    sibc = []
+    zres = "ma[b(61),b(31),b(62),b(32),b(63),b(33)]"
+    for nm_, args_ in sib:
+        sibc.append(dict(line=L.mkcase([(0, "f" + L.hx(G.request_bytes(nm_, args_))), (0, "e")], tbl={"ZRangeByScore:" + L.hx(b"z"): zres, "ZRange:" + L.hx(b"z"): zres, "Get:" + L.hx(b"n"): "mb(3130)"}, default="mn"),
+                         desc=req_desc(nm_, args_)))
+    for c in run_cases(chk, sibc):
+        if basic_monitors(chk, "C05", c):
+            corr(chk, c, sig="sibling-arguments")
+    good = run_cases(chk, cases, logged=True)
     validated, distinct, per_cmd = 0, set(), {}
     for c in good:
         if not basic_monitors(chk, "C05", c):
@@ -859,6 +902,14 @@ def run_c20(tier, seed):
             steps = ([(0, "f" + L.hx(data + tail))] if data + tail else []) + [(0, "S")]
             cases.append(dict(line=L.mkcase(steps, default="mb(76)"), endk="server-stop", nocorr=True,
                               desc="%s%s, then the server is stopped [end: Stop]" % (" ; ".join(req_desc(n_, a) for n_, a in pre) or "(nothing sent)", " + a partial request" if tail else "")))
+    # two connections contend for the command lock: connection 0's handler call is held inside the handler while connection 1's
+    # request arrives and waits for the lock; every iteration of BOTH connections is still bracketed by its own balanced spans
+    for other in ([("PING", [])], [("GET", [b"k"]), ("STRLEN", [b"k"])], [("NOSUCH", [])], [("SET", [b"k", b"v"]), ("QUIT", [])]):
+        for slow in (("GET", [b"slowkey"]), ("STRLEN", [b"slowkey"]), ("HLEN", [b"slowkey"])):
+            steps = [(0, "f" + L.hx(G.request_bytes("PING", []))), (0, "g" + L.hx(G.request_bytes(*slow))), (1, "g" + L.hx(b"".join(G.request_bytes(n_, a) for n_, a in other))),
+                     (0, "G"), (1, "f" + L.hx(G.request_bytes("PING", []))), (0, "f" + L.hx(G.request_bytes("PING", []))), (0, "e"), (1, "e")]
+            cases.append(dict(line=L.mkcase(steps, conns=2, default="mb(76)"), endk="lock-contention", nocorr=True, both=True,
+                              desc="c0: PING ; %s (held inside the handler) | c1 meanwhile: %s ; then both go on" % (req_desc(*slow), " ; ".join(req_desc(n_, a) for n_, a in other))))
     for cap in (0, 100, 5000):
         steps = [(0, "s%d" % cap), (0, "f" + L.hx(G.request_bytes("PING", []) + G.request_bytes("GET", [b"bigk"]) + G.request_bytes("PING", []))), (0, "S")]
         cases.append(dict(line=L.mkcase(steps, tbl={"Get:" + L.hx(b"bigk"): "mb(" + L.hx(bigv) + ")"}, default="ms(4f4b)"), endk="server-stop", nocorr=True,
@@ -870,6 +921,11 @@ def run_c20(tier, seed):
             continue
         res, evs = c["iobs"].conns[0]
         err = L.monitor_spans(evs)
+        if not err and c.get("both"):
+            err = L.monitor_spans(c["iobs"].conns[1][1])
+            if err:
+                evs = c["iobs"].conns[1][1]
+                err = "connection 1: " + err
         if err:
             chk.violation("spans-unbalanced", "%s :: %s" % (err, c["desc"]), dict(case=c["line"], desc=c["desc"], events=[e for e in evs if e[:2] in ("RS", "RF", "SS", "SF") or e.startswith("!")][:200]))
             continue
